@@ -139,6 +139,20 @@ def oracle_c02(case, out, mode):
     return None
 
 
+def case_tags(case):
+    """Input characteristics used to scope known findings to their triggering condition."""
+    tags = set()
+    X = np.asarray(case["X"], dtype=float)
+    if case.get("cmode") == "feat":
+        C = np.asarray(case["cand"], dtype=float)
+    else:
+        cs, _ = cand_list(case) if "cmode" in case else (list(np.flatnonzero(np.isnan(case["y"]))), 0)
+        C = X[cs] if len(cs) else X[:0]
+    if len(C) and len(np.unique(C, axis=0)) < len(C):
+        tags.add("dup_candidate_rows")
+    return tags
+
+
 def lab_mask(case):
     return listlit([blit(not np.isnan(v)) for v in case["y"]])
 
